@@ -101,14 +101,38 @@ def rebuild(t, f):
 
 def subst(t, mapping):
     """Replace ('param', i) / ('upvar', k, name) leaves according to mapping."""
+    # the substitution is simultaneous: a projection that collapses on a substituted aggregate (`self.actor` with
+    # self := Dot{actor: <caller's param 2>, ..}) yields a leaf of the *caller's* namespace, which rebuild hands to f
+    # again; the images are therefore protected (param -> %param, upvar -> %upvar) while t is rewritten
+    def protect(x):
+        if x[0] == 'param':
+            return ('%param',) + tuple(x[1:])
+        if x[0] == 'upvar':
+            return ('%upvar',) + tuple(x[1:])
+        return x
+
+    def unprotect(x):
+        if x[0] == '%param':
+            return ('param',) + tuple(x[1:])
+        if x[0] == '%upvar':
+            return ('upvar',) + tuple(x[1:])
+        return x
+    prot = {}
+
+    def image(k):
+        if k not in prot:
+            prot[k] = rebuild(mapping[k], protect)
+        return prot[k]
+
     def f(x):
         if x[0] == 'param' and ('param', x[1]) in mapping:
-            return mapping[('param', x[1])]
+            return image(('param', x[1]))
         if x[0] == 'upvar' and ('upvar', x[1]) in mapping:
-            return mapping[('upvar', x[1])]
+            return image(('upvar', x[1]))
         return x
     # leaves are rewritten by f as well because rebuild applies f to every node
-    return rebuild(t, f)
+    r = rebuild(t, f)
+    return rebuild(r, unprotect) if prot else r
 
 
 def versionless(t):
